@@ -143,4 +143,34 @@
     memory.fill
     unreachable
   )
+  ;; nine parameters of mixed types (the last two differ), eight and ten for comparison
+  (func $nine (export "nine") (param i32 i32 i32 i32 i32 i32 i32 i64 f64) (result f64)
+    local.get 8
+    local.get 7
+    f64.convert_i64_s
+    f64.add
+  )
+  (func $eight (export "eight") (param i32 i32 i32 i32 i32 i32 i64 f64) (result f64)
+    local.get 7
+    local.get 6
+    f64.convert_i64_s
+    f64.add
+  )
+  (func $ten (export "ten") (param i32 i32 i32 i32 i32 i32 i32 i32 i64 f64) (result f64)
+    local.get 9
+    local.get 8
+    f64.convert_i64_s
+    f64.add
+  )
+  (func $nineres (export "nineres") (param i32) (result i32 i32 i32 i32 i32 i32 i32 i64 f64)
+    local.get 0
+    local.get 0
+    local.get 0
+    local.get 0
+    local.get 0
+    local.get 0
+    local.get 0
+    i64.const 7
+    f64.const 2.5
+  )
 )
